@@ -127,6 +127,29 @@ class ExprBuilder:
         self._cache[l] = e
         return e
 
+    def _variant_def(self, e, vname, fidx):
+        """`(x as V).f` where every definition of x builds an enum value and exactly one builds variant V: that
+        definition's operand (MIR downcasts only after the discriminant was tested, so x is that value there)"""
+        ds = self.body.defs.get(e[1], [])
+        if len(ds) < 2 or e[1] in self._in_progress:
+            return None
+        hit = []
+        for (bi, si, kind) in ds:
+            if si == "term" or kind == "partial":
+                return None
+            rv = self.body.blocks[bi].stmts[si].rv
+            if rv is None or rv.kind != "agg" or rv.agg != "adt" or rv.vname is None:
+                return None
+            if rv.vname == vname:
+                hit.append(rv)
+        if len(hit) != 1 or not isinstance(fidx, int) or fidx >= len(hit[0].ops):
+            return None
+        self._in_progress.add(e[1])
+        try:
+            return self.operand(hit[0].ops[fidx], 1)
+        finally:
+            self._in_progress.discard(e[1])
+
     def vec_literal(self, op):
         """`vec![a, b, c]` expands to Box::new_uninit + a store of the array through the box pointer +
         box_assume_init_into_vec_unsafe; recover ("agg", "vec", elems)"""
@@ -209,7 +232,8 @@ class ExprBuilder:
                     elif e[0] == "call" and e[4] == "std::ops::Try::branch" and vname == "Break":
                         e = ("residual", e[2][0])
                     else:
-                        e = ("vfield", e, vname, fname)
+                        sel = self._variant_def(e, vname, f[1]) if e[0] == "phi" else None
+                        e = sel if sel is not None else ("vfield", e, vname, fname)
                     i += 1
                 else:
                     e = ("vcast", e, vname)
